@@ -7,6 +7,8 @@ transpose; the matrix of the extracted Hamilton product is the product of the
 matrices; rotate()/q v q*/q_rot agree with the matrix.  Unit quaternions are modelled
 as normalised free 4-vectors, so the only algebraic relation used is sqrt(s)^2 = s.
 Not decided: floating-point rounding.
+Added after the seeding rounds (DESIGN.md 6.6-6.8):
+ IDENT.storage  the matrix of an object stored scalar-last equals that of the same quaternion stored scalar-first (both classes).
 """
 import ast
 import numpy as np
